@@ -84,6 +84,14 @@ func c07Scenarios(thorough bool) []ConcScenario {
 		out = append(out, ConcScenario{Name: fmt.Sprintf("two-%s+%s-idle-timeout-configured", kinds[0], kinds[1]), Deviation: true, RoundRobin: true, IdleTimeout: 30,
 			Plans: []TunnelPlan{c07Plan(kinds[0], "A", 1, "close"), c07Plan(kinds[1], "B", 2, "drop")}})
 	}
+	// a legacy client whose inbound request was accepted and that has not sent a byte yet, next to a tunnel that
+	// goes through a whole session
+	for _, kind := range []string{"ws", "legacy"} {
+		silent := TunnelPlan{Kind: "legacy", ConnID: "conn-S", User: "user-S", IP: "10.0.9.1", Host: "host-s.example:3309", StopAt: "accepted", Script: []string{"wait:other-done", "drop"}}
+		full := c07Plan(kind, "B", 2, "close")
+		full.Script = append(full.Script, "signal:other-done")
+		out = append(out, ConcScenario{Name: "silent-accepted-legacy-client-next-to-" + kind, Deviation: true, Plans: []TunnelPlan{silent, full}})
+	}
 	// many tunnels at the same time (the default schedule advances them in lockstep, so all of them are in the same
 	// phase together): each behaves as when it is alone. One schedule each.
 	for _, n := range []int{17, 64} {
@@ -298,7 +306,7 @@ func c07(env *Env, rep *Report) {
 			// the reference observation must itself be a working tunnel: the gateway process has served other
 			// tunnels before this one (earlier scenarios, the other tunnel's reference run), and none of
 			// that may matter
-			if t := r.Tunnels[0]; t.SetupFailed != "" || len(t.Dialled) != 1 || t.Dialled[0] != p.Host {
+			if t := r.Tunnels[0]; p.StopAt == "" && (t.SetupFailed != "" || len(t.Dialled) != 1 || t.Dialled[0] != p.Host) {
 				rep.violate("C07/tunnel-affected-by-earlier-tunnels-of-the-process/"+sc.Name, fmt.Sprintf("tunnel %s run alone (after other tunnels were served and ended): %s", p.ConnID, c07Obs(t)), map[string]any{"noreplay": true})
 			}
 			r.X.Finish()
